@@ -250,6 +250,47 @@ fn fixture_lists() -> Vec<Vec<u64>> {
     lists
 }
 
+/// a very large, almost irreducible input: all descendants of `root` at depth d with the last child of every sibling
+/// group removed, except for a few groups left complete (random ones and ones placed so that, in sorted order, they
+/// straddle multiples of 2^12 / 2^16).  Far too large to ship to TLC: the harness counts, TLC judges the counts.
+fn bigcompact_event(rng: &mut Rng, depth: i32) -> Value {
+    let r = 2 + rng.below((29 - depth - 1) as u64) as i32;
+    let h = r - 1;
+    let root = serialize(&A5Cell { origin_id: rng.below(12) as u8, segment: rng.below(5) as usize, s: rng.next() & ((1u64 << (2 * h)) - 1), resolution: r }).unwrap();
+    let parents = a5::cell_to_children(root, Some(r + depth - 1)).unwrap();
+    let ngroups = parents.len();
+    // complete groups placed so that, in the sorted list, they straddle a multiple of 2^12 or 2^16: with c complete groups
+    // before it, group g starts at index 3 g + c; boundaries are taken in increasing order so that c is known
+    let mut complete: Vec<usize> = vec![];
+    let mut bounds: Vec<u64> = (1..=3u64).map(|j| j << 16).collect();
+    bounds.extend([1u64 << 12, 5u64 << 12, 37u64 << 12]);
+    bounds.sort_unstable();
+    for b in bounds {
+        let cnt = complete.len() as u64;
+        for off in 1..=3u64 {
+            let t = b - off;                       // wanted start index: the group then covers t .. t+3, across b
+            if t >= cnt && (t - cnt) % 3 == 0 { let g = ((t - cnt) / 3) as usize; if g < ngroups && !complete.contains(&g) { complete.push(g); } break; }
+        }
+    }
+    // and a few random ones behind them
+    let last = complete.iter().copied().max().unwrap_or(0);
+    for _ in 0..5 { if last + 1 < ngroups { complete.push(last + 1 + rng.below((ngroups - last - 1) as u64) as usize); } }
+    complete.sort_unstable(); complete.dedup();
+    let mut input: Vec<u64> = Vec::with_capacity(ngroups * 4);
+    for (g, &p) in parents.iter().enumerate() {
+        let kids = a5::cell_to_children(p, None).unwrap();
+        if complete.binary_search(&g).is_ok() { input.extend(kids); } else { input.extend(&kids[..3]); }
+    }
+    let n_in = input.len();
+    let (ok, outv) = compact_call(&input);
+    let outset: std::collections::HashSet<u64> = outv.iter().copied().collect();
+    let parents_present = complete.iter().filter(|&&g| outset.contains(&parents[g])).count();
+    let mut leftovers = 0usize;
+    for &g in &complete { for k in a5::cell_to_children(parents[g], None).unwrap() { if outset.contains(&k) { leftovers += 1; } } }
+    json!({"op": "bigcompact", "root": quads(root), "depth": depth, "n_in": n_in, "groups_complete": complete.len(), "ok": ok,
+           "out_len": outv.len(), "parents_present": parents_present, "leftovers": leftovers, "dups": outv.len() - outset.len()})
+}
+
 pub fn gen_c08(tier: &str, seed: u64, out: &str, mc: Option<&str>) -> Value {
     let mut rng = Rng::new(seed ^ 0xC08);
     let mut t = Trace::new(out, "c08", 120);
@@ -320,8 +361,15 @@ pub fn gen_c10(tier: &str, seed: u64, out: &str, mc: Option<&str>) -> Value {
         }
         t.cut();
     }
+    // very large inputs (hundreds of thousands of cells)
+    let mut n_big = 0u64;
+    for i in 0..(if tier == "thorough" { 12 } else { 3 }) {
+        t.emit(bigcompact_event(&mut rng, if i % 3 == 2 { 10 } else { 9 }));
+        n_big += 1;
+        t.cut();
+    }
     t.finish();
     let s: Vec<u64> = children(children(0)[3]);
-    json!({"files": t.files, "events": t.events, "compact_calls": n, "equal_cover_pairs": n_pairs, "mc_replayed": n_mc,
+    json!({"files": t.files, "events": t.events, "compact_calls": n, "equal_cover_pairs": n_pairs, "very_large_inputs": n_big, "mc_replayed": n_mc,
            "samples": [compact10_event(&s)]})
 }
